@@ -38,7 +38,13 @@ BackendL == {"ssl", "pyopenssl"}
 RouteL   == {"direct", "tunnel_http", "tunnel_https_good", "tunnel_https_bad", "tunnel_https_pinned"}
   \* CONNECT tunnel through an http proxy, or through an https proxy whose certificate is good (trusted,
   \* right name), bad (untrusted issuer), or good and additionally pinned with proxy_assert_fingerprint
-IssuerL  == {"trusted", "untrusted"}
+CaSrcL   == {"file", "data", "dir", "none", "ctx"}
+  \* how the CONFIGURED CAs reach the client: ca_certs file, ca_cert_data PEM text, ca_cert_dir hashed
+  \* directory, not at all (=> the process default trust store is the configured set), or inside the
+  \* caller-supplied context (the caller did load_verify_locations itself)
+IssuerL  == {"trusted", "untrusted", "default_store"}
+  \* who signed the origin's certificate: the private CA the harness hands over whenever a CA source is
+  \* configured; a CA in no store; a CA that is ONLY in the process default trust store
 SanL     == {"exact", "wildcard", "mismatch", "ip_match", "ip_mismatch", "cn_only"}
 HostL    == {"lower", "upper", "dot", "ipv4", "ipv6zone"}        \* spelling of the requested host
 
@@ -47,20 +53,26 @@ HttpsProxyRoutes == {"tunnel_https_good", "tunnel_https_bad", "tunnel_https_pinn
 CONSTANTS Routes,      \* sub-lattice explored: subset of RouteL
           Backends,    \* subset of BackendL
           Hosts,       \* subset of HostL
+          Sans,        \* subset of SanL
           KnownDefects \* named deviations of the real code the Model reproduces (subset of AllKnownDefects);
                        \* {} = the design the finding asks for
 
 \* "PinnedProxySilencesWarning": _validate_conn warns only when NEITHER the origin NOR the proxy leg is
 \* verified, so a pinned (hence "verified") https proxy silences the warning for an unvalidated origin.
 AllKnownDefects == {"PinnedProxySilencesWarning"}
+\* deviations that are NOT in the code: each must make TLC report a clause (the spec can see them)
+RefutableDeviations == {"DefaultStoreAlsoTrusted"}
 
 \* TLS-in-TLS needs SSLContext.wrap_bio, which the pyOpenSSL context does not have: those points
 \* are outside the lattice (urllib3 refuses them with ProxySchemeUnsupported).
 ValidStack(backend, route) == route \in HttpsProxyRoutes => backend = "ssl"
 
-Cfg == {c \in [reqs : ReqsL, ah : AHL, fp : FPL, sh : SHL, ctx : CtxL, backend : Backends, route : Routes] :
-            ValidStack(c.backend, c.route)}
-Srv == [issuer : IssuerL, san : SanL, host : Hosts]
+\* CAs travel inside the caller's context exactly when there is one
+ValidTrust(ctx, casrc) == (ctx = "none") <=> (casrc # "ctx")
+
+Cfg == {c \in [reqs : ReqsL, ah : AHL, fp : FPL, sh : SHL, ctx : CtxL, casrc : CaSrcL, backend : Backends,
+               route : Routes] : ValidStack(c.backend, c.route) /\ ValidTrust(c.ctx, c.casrc)}
+Srv == [issuer : IssuerL, san : Sans, host : Hosts]
 
 -----------------------------------------------------------------------------
 (* RULES, part 1: what the settings demand                                                     *)
@@ -133,11 +145,20 @@ NameTruth(cfg, srv) ==
     LET raw == RawTermTruth(NameTerm(cfg), srv) IN
     IF raw = "cn" THEN (IF cfg.ctx \in {"none", "urllib3_ctx"} THEN "fail" ELSE "either") ELSE raw
 
+\* "chain validation against the CONFIGURED CAs": when any CA source is configured the private CA is the
+\* configured set and the default trust store must not count; when none is configured, the default
+\* store is the configured set.
+PrivateConfigured(cfg) == cfg.casrc # "none"
+ChainTruth(cfg, issuer) ==
+    CASE issuer = "trusted"       -> IF PrivateConfigured(cfg) THEN "pass" ELSE "fail"
+      [] issuer = "default_store" -> IF PrivateConfigured(cfg) THEN "fail" ELSE "pass"
+      [] OTHER                    -> "fail"
+
 Truth(c, cfg, srv) ==
-    CASE c = "chain"  -> IF srv.issuer = "trusted" THEN "pass" ELSE "fail"
+    CASE c = "chain"  -> ChainTruth(cfg, srv.issuer)
       [] c = "name"   -> NameTruth(cfg, srv)
       [] c = "pin"    -> IF cfg.fp = "right" THEN "pass" ELSE "fail"      \* wrong digest / impossible length
-      [] c = "pchain" -> IF cfg.route = "tunnel_https_bad" THEN "fail" ELSE "pass"
+      [] c = "pchain" -> ChainTruth(cfg, IF cfg.route = "tunnel_https_bad" THEN "untrusted" ELSE "trusted")
       [] c = "pname"  -> "pass"                                            \* proxy.test for proxy.test
       [] c = "ppin"   -> "pass"                                            \* the right proxy pin
       [] OTHER        -> "pass"
@@ -150,13 +171,17 @@ AllDemanded(cfg) == Demanded(cfg) \cup ProxyDemanded(cfg)
 
 \* Three-valued expectation.  LATITUDE: rejecting MORE than demanded is never a violation; with
 \* CERT_OPTIONAL OpenSSL still validates the chain in client mode, so a chain failure there may
-\* or may not block.
+\* or may not block; a backend that cannot read a CA source (pyOpenSSL: ca_cert_data alone, the
+\* default store) fails closed.
+BackendCannotLoad(cfg) == cfg.backend = "pyopenssl" /\ cfg.casrc \in {"data", "none"}
 MustBlock(cfg, srv)      == AllDemanded(cfg) \cap Failed(srv, cfg) # {}
 ProxyMustBlock(cfg, srv) == ProxyDemanded(cfg) \cap Failed(srv, cfg) # {}
 MayBlock(cfg, srv) ==
     \/ MustBlock(cfg, srv)
     \/ \E c \in AllDemanded(cfg) : Truth(c, cfg, srv) = "either"
-    \/ EffMode(cfg) = "OPTIONAL" /\ (srv.issuer = "untrusted" \/ cfg.route = "tunnel_https_bad")
+    \/ EffMode(cfg) = "OPTIONAL" /\ (Truth("chain", cfg, srv) = "fail"
+                                    \/ (cfg.route \in HttpsProxyRoutes /\ Truth("pchain", cfg, srv) = "fail"))
+    \/ BackendCannotLoad(cfg) /\ (cfg.casrc = "data" \/ EffMode(cfg) # "NONE")   \* loading fails whatever the mode
 
 Expect(cfg, srv) == IF Conflict(cfg) THEN "refused"
                     ELSE IF MustBlock(cfg, srv) THEN "block"
@@ -216,6 +241,7 @@ InitStateKD(cfg, srv, kd) ==
      vmode |-> "unset",        \* context.verify_mode
      checkHost |-> FALSE,      \* context.check_hostname: OpenSSL matches the name in the handshake
      cnFallback |-> FALSE,     \* context.hostname_checks_common_name
+     trusts |-> {},            \* CA sets in the context's store: subset of {"private", "default"}
      pVerified |-> "none",     \* conn.proxy_is_verified: "none" | "true" | "false"
      isVerified |-> FALSE,     \* conn.is_verified
      sockOpen |-> FALSE, hs |-> FALSE, sni |-> "<none>",
@@ -240,11 +266,28 @@ DialStep(s) ==
                        [] s.cfg.route = "tunnel_http" -> "at_proxy"
                        [] OTHER -> "proxy_tls"]
 
+\* --- the trust store a context ends up with (both legs use the same code):
+\*     `if not ca_certs and not ca_cert_dir and not ca_cert_data and default_ssl_context and
+\*      hasattr(context, "load_default_certs"): context.load_default_certs()`, then in ssl_wrap_socket
+\*     `if ca_certs or ca_cert_dir or ca_cert_data: context.load_verify_locations(...)`.
+\*     Named deviation "DefaultStoreAlsoTrusted" (NOT a defect of the code; TLC must refute it): the
+\*     guard forgets ca_cert_data, so the default store is loaded on top of the configured PEM text.
+StoreAfterLoading(s, own, before) ==
+    LET given    == IF s.cfg.casrc = "ctx" THEN (IF own THEN {"file"} ELSE {}) ELSE {s.cfg.casrc} \ {"none"}
+        seen     == IF "DefaultStoreAlsoTrusted" \in s.kd THEN given \ {"data"} ELSE given
+        defaults == IF own /\ seen = {} /\ s.cfg.backend = "ssl" THEN {"default"} ELSE {}   \* pyOpenSSL: no such method
+        loaded   == IF given # {} THEN {"private"} ELSE {}
+    IN before \cup defaults \cup loaded
+
 \* --- _connect_tls_proxy: same wrap-and-verify function, proxy_config's context (none here => a
 \*     fresh urllib3 context with the connection's cert_reqs), server_hostname = proxy host
 En_ProxyHandshake(s) == s.pc = "proxy_tls"
 ProxyHandshakeStep(s) ==
-    IF s.certReqs # "NONE" /\ s.cfg.route = "tunnel_https_bad"
+    LET signer == IF s.cfg.route = "tunnel_https_bad" THEN "nobody" ELSE "private"
+        \* (when the caller brought a context the harness also passes ca_certs for the proxy leg)
+    IN
+    IF s.cfg.backend = "pyopenssl" /\ s.cfg.casrc = "data" THEN Raise(s, "pyopenssl-cannot-load-cadata")
+    ELSE IF s.certReqs # "NONE" /\ signer \notin StoreAfterLoading(s, TRUE, {})
     THEN Raise(s, "openssl-proxy-chain")
     ELSE [s EXCEPT !.pVerified = IF s.certReqs = "REQUIRED" \/ ProxyPinned(s.cfg) THEN "true" ELSE "false",
                    !.pc = "at_proxy"]
@@ -272,6 +315,7 @@ BuildContextStep(s) ==
        ELSE [s EXCEPT !.own = own, !.vmode = s.certReqs, !.checkHost = chk0,
                       \* ssl.create_default_context keeps the fallback on, urllib3's factory turns it off
                       !.cnFallback = ~own /\ s.cfg.backend = "ssl" /\ s.cfg.ctx # "urllib3_ctx",
+                      !.trusts = IF own THEN {} ELSE {"private"},     \* the caller loaded its CA itself
                       !.pc = "ctx_built"]
 
 \* --- "In some cases, we want to verify hostnames ourselves"
@@ -280,13 +324,21 @@ DecideWhoChecksHostnameStep(s) ==
     LET ourselves == s.cfg.fp # "unset" \/ s.cfg.ah # "unset" \/ s.cfg.backend = "pyopenssl"
     IN [s EXCEPT !.checkHost = IF ourselves THEN FALSE ELSE @, !.pc = "decided"]
 
+\* --- load_default_certs() guard + ssl_wrap_socket(): load_verify_locations()
+En_LoadCAs(s) == s.pc = "decided"
+LoadCAsStep(s) ==
+    IF s.cfg.backend = "pyopenssl" /\ s.cfg.casrc = "data" THEN Raise(s, "pyopenssl-cannot-load-cadata")
+    ELSE [s EXCEPT !.trusts = StoreAfterLoading(s, s.own, @), !.pc = "loaded"]
+
 \* --- ssl_wrap_socket(): the handshake.  OpenSSL validates the chain whenever verify_mode is not
 \*     NONE (OPTIONAL behaves like REQUIRED on the client side) and the name when check_hostname.
-En_Handshake(s) == s.pc = "decided"
+En_Handshake(s) == s.pc = "loaded"
 HandshakeStep(s) ==
     LET term      == TermOfSH(s.cfg)                     \* server_hostname or host
         s1        == [s EXCEPT !.sni = SniOf(term, s.srv)]
-        chainFail == s.vmode # "NONE" /\ s.srv.issuer = "untrusted"
+        signer    == CASE s.srv.issuer = "trusted" -> "private" [] s.srv.issuer = "default_store" -> "default"
+                       [] OTHER -> "nobody"
+        chainFail == s.vmode # "NONE" /\ signer \notin s.trusts
         raw       == RawTermTruth(term, s.srv)
         nameFail  == s.checkHost /\ (raw = "fail" \/ (raw = "cn" /\ ~s.cnFallback))
     IN IF chainFail THEN Raise(s1, "openssl-chain")
@@ -349,6 +401,7 @@ NextState(s) ==
       [] En_Tunnel(s)                  -> TunnelStep(s)
       [] En_BuildContext(s)            -> BuildContextStep(s)
       [] En_DecideWhoChecksHostname(s) -> DecideWhoChecksHostnameStep(s)
+      [] En_LoadCAs(s)                 -> LoadCAsStep(s)
       [] En_Handshake(s)               -> HandshakeStep(s)
       [] En_AssertFingerprint(s)       -> AssertFingerprintStep(s)
       [] En_MatchHostname(s)           -> MatchHostnameStep(s)
@@ -376,6 +429,7 @@ ProxyHandshake          == En_ProxyHandshake(st)          /\ st' = ProxyHandshak
 Tunnel                  == En_Tunnel(st)                  /\ st' = TunnelStep(st)
 BuildContext            == En_BuildContext(st)            /\ st' = BuildContextStep(st)
 DecideWhoChecksHostname == En_DecideWhoChecksHostname(st) /\ st' = DecideWhoChecksHostnameStep(st)
+LoadCAs                 == En_LoadCAs(st)                 /\ st' = LoadCAsStep(st)
 Handshake               == En_Handshake(st)               /\ st' = HandshakeStep(st)
 AssertFingerprint       == En_AssertFingerprint(st)       /\ st' = AssertFingerprintStep(st)
 MatchHostname           == En_MatchHostname(st)           /\ st' = MatchHostnameStep(st)
@@ -400,7 +454,7 @@ ReportAnomalous ==
 Init == \E cfg \in Cfg, srv \in Srv : st = InitState(cfg, srv)
 
 Next == \/ DeriveCertReqs \/ Dial \/ ProxyHandshake \/ Tunnel \/ BuildContext \/ DecideWhoChecksHostname
-        \/ Handshake \/ AssertFingerprint \/ MatchHostname \/ NoPostHandshakeCheck \/ ComputeIsVerified
+        \/ LoadCAs \/ Handshake \/ AssertFingerprint \/ MatchHostname \/ NoPostHandshakeCheck \/ ComputeIsVerified
         \/ Warn \/ SendRequest
         \/ ReportSSLErrorBeforeRequest \/ ReportSentVerified \/ ReportSentUnverifiedWarned
         \/ ReportConfigRefused \/ ReportAnomalous
@@ -410,9 +464,10 @@ Spec == Init /\ [][Next]_vars /\ WF_vars(Next)
 -----------------------------------------------------------------------------
 (* What TLC checks (stage 1)                                                                   *)
 
-PCs == {"new", "derived", "proxy_tls", "at_proxy", "connected", "ctx_built", "decided", "handshaken", "checked",
+PCs == {"new", "derived", "proxy_tls", "at_proxy", "connected", "ctx_built", "decided", "loaded", "handshaken", "checked",
         "connected_tls", "validated", "sent", "raised", "refused", "done"}
 TypeOK == /\ st.cfg \in Cfg /\ st.srv \in Srv /\ st.pc \in PCs /\ st.kd = KnownDefects
+          /\ st.trusts \subseteq {"private", "default"}
           /\ st.certReqs \in ReqsL \cup {"unset"} /\ st.vmode \in ReqsL \cup {"unset"}
           /\ st.pVerified \in {"none", "true", "false"} /\ st.exc \in {"none", "ssl", "config"}
           /\ \A f \in {"own", "checkHost", "cnFallback", "isVerified", "sockOpen", "hs", "connectSent",
